@@ -134,7 +134,7 @@ func ParseJSONPath(p string) ([]pathSeg, bool) {
 // boolean keeps its literal text, an object or array is returned as its JSON text (objectIgnored: deviant rule,
 // nothing is extracted), a missing path or null yields an empty value (= no label).  ok == false: the line is not
 // valid JSON.
-func JSONExtract(line string, params []Param, objectIgnored bool) (kv [][2]string, ok bool, err error) {
+func JSONExtract(line string, params []Param, objectIgnored, lastSegmentOnly bool) (kv [][2]string, ok bool, err error) {
 	if !json.Valid([]byte(line)) {
 		return nil, false, nil
 	}
@@ -142,6 +142,14 @@ func JSONExtract(line string, params []Param, objectIgnored bool) (kv [][2]strin
 		segs, good := ParseJSONPath(p.Expr)
 		if !good {
 			return nil, false, ErrUnsupported
+		}
+		if lastSegmentOnly && (len(segs) > 1 || segs[0].isIdx) {
+			// deviant rule: only the last segment, as a top-level key
+			last := segs[len(segs)-1]
+			if last.isIdx {
+				last = pathSeg{key: strconv.Itoa(last.idx + 1)}
+			}
+			segs = []pathSeg{last}
 		}
 		cur := json.RawMessage(line)
 		found := true
